@@ -78,7 +78,7 @@ type lcase struct {
 func partL(c *kit.Ctx) int {
 	n := 250
 	if c.Thorough() {
-		n = 4000
+		n = 2500
 	}
 	for i := 0; i < n; i++ {
 		r := c.Rand.Fork()
